@@ -1,14 +1,16 @@
 """C16 plug-in of run/reports.py: what the JUnit report files say after a run with --junit.
 
 project(env) -> {"files": [per feature of the program, in program order], "stray": [names of other files]}
-  one entry per feature:  {"f": feature index, "el": abstract id of the feature, "exists": a TESTS-f<i>.xml is there,
+  one entry per feature:  {"f": feature index, "el": abstract id of the feature, "exists": a TESTS-<file stem>.xml is there,
      "wellformed": the independent parser (xml.dom.minidom = expat) accepted it, "parse_error": its message,
      "root": tag of the document element, "suites": number of <testsuite> elements,
      "tests" / "failures" / "errors" / "skipped": the counter attributes of <testsuite> as ints (-1 = absent or no int),
      "attrs": the attribute names of <testsuite> (sorted),
      "cases": the <testcase> elements in document order, each
-         {"el": abstract scenario id named by the `name` attribute (S<id>;  O<id> -- @<block>.<row> -> the row's id
-                through the program's element table; 0 = names no scenario of this feature), "name", "status" (attribute),
+         {"el": abstract id of the scenario the `name` attribute stands for: the first not yet used scenario (outline rows
+                included) of this feature's PARSED MODEL that carries this name, identified by its location (file, line ->
+                element id through Rendered.by_loc) -- not by the generated row index, which shifts when an outline has
+                Examples tables without rows; 0 = no scenario of this feature has that name; "name", "status" (attribute),
           "entries": the child elements in document order, each {"kind": tag (failure / error / skipped / system-out /
                 system-err / ...), "type", "message" (first 120 characters), "steps": the step positions of that
                 scenario whose step text (`fbg k` / `rbg k` / `own k`) occurs in message or text, "hook": "HOOK-ERROR"
@@ -92,7 +94,25 @@ def positions(text, steps):
     return [p + 1 for p, s in enumerate(steps) if (s["org"], s["k"]) in named]
 
 
-def read_report(path, flat, blocks):
+def model_names(env):
+    """per feature index: [(scenario name, abstract id)] of the real parsed model in document order (outline rows included);
+    the id comes from the scenario's LOCATION (env.elid: file + line -> element), the name is what the parser / outline
+    builder gave it -- public attributes, nothing of the reporter"""
+    out = {}
+    fidx = {fn: i for i, (fn, _t) in enumerate(env.rendered.files)}
+    for f in env.feats or []:
+        fi = fidx.get(os.path.basename(f.filename), -1)
+        lst = []
+        try:
+            for sc in f.walk_scenarios():
+                lst.append((sc.name, env.elid(sc)))
+        except Exception:
+            pass
+        out[fi] = lst
+    return out
+
+
+def read_report(path, flat, blocks, names=None):
     d = {"exists": os.path.exists(path), "wellformed": False, "parse_error": "", "root": "", "suites": 0,
          "tests": -1, "failures": -1, "errors": -1, "skipped": -1, "attrs": [], "cases": []}
     if not d["exists"]:
@@ -113,12 +133,22 @@ def read_report(path, flat, blocks):
     d["attrs"] = sorted(suite.attributes.keys())
     for c in COUNTERS:
         d[c] = _int(suite.getAttribute(c)) if suite.hasAttribute(c) else -1
+    used = set()
     for tc in [n for n in suite.childNodes if n.nodeType == n.ELEMENT_NODE]:
         if tc.tagName != "testcase":
             d["cases"].append({"el": 0, "name": "<%s>" % tc.tagName, "status": "", "entries": []})
             continue
         name = tc.getAttribute("name")
-        el = name_to_el(name, flat, blocks)
+        if names is not None:
+            # the first not yet used scenario of this feature that carries the name (names are unique unless prog["dupnames"])
+            el = 0
+            for k, (nm, i) in enumerate(names):
+                if nm == name and k not in used:
+                    used.add(k)
+                    el = i
+                    break
+        else:
+            el = name_to_el(name, flat, blocks)
         steps = flat["elems"][el - 1]["steps"] if el else []
         entries = []
         for e in [n for n in tc.childNodes if n.nodeType == n.ELEMENT_NODE]:
@@ -142,10 +172,11 @@ def project(env):
     jdir = os.path.join(env.outdir, "junit")
     present = sorted(os.listdir(jdir)) if os.path.isdir(jdir) else []
     files, expected = [], set()
+    names = model_names(env)
     for fi, fid in enumerate(flat["features"]):
-        name = "TESTS-f%d.xml" % fi
+        name = "TESTS-%s.xml" % os.path.splitext(env.rendered.files[fi][0])[0]
         expected.add(name)
-        d = read_report(os.path.join(jdir, name), flat, blocks)
+        d = read_report(os.path.join(jdir, name), flat, blocks, names.get(fi))
         d["f"], d["el"] = fi, fid
         files.append(d)
     return {"files": files, "stray": [n for n in present if n not in expected]}
